@@ -103,6 +103,8 @@ type c3Net struct {
 	nm, nh   int
 	nd, nc   int
 	nt       int
+	regs     map[string]c3Manifest // two-pull cases: the manifest served per model ("m<id>")
+	hook     func(req *http.Request) // called before anything else (may block: scripted interleavings)
 	cancel   context.CancelFunc // cancels the context PullModel was called with
 	dying    atomic.Bool
 	countOut string // child mode: counters are rewritten here after every request
@@ -194,6 +196,9 @@ func (b *c3Body) Read(p []byte) (int, error) {
 func (b *c3Body) Close() error { return nil }
 
 func (n *c3Net) RoundTrip(req *http.Request) (*http.Response, error) {
+	if n.hook != nil {
+		n.hook(req)
+	}
 	if n.dying.Load() {
 		select {} // child mode: the process is about to die of the panic; make no further request
 	}
@@ -232,7 +237,13 @@ func (n *c3Net) RoundTrip(req *http.Request) (*http.Response, error) {
 			if arg == "badjson" {
 				return c3Resp(req, 200, nil, c3BytesBody([]byte("<html>oops"))), nil
 			}
-			return c3Resp(req, 200, nil, c3BytesBody(c3ManifestJSON(n.c.reg))), nil
+			reg := n.c.reg
+			for k, m := range n.regs {
+				if strings.Contains(path, "/"+k+"/manifests/") {
+					reg = m
+				}
+			}
+			return c3Resp(req, 200, nil, c3BytesBody(c3ManifestJSON(reg))), nil
 		})
 	case host == c3RegHost && strings.Contains(path, "/blobs/sha256:"):
 		dig := path[strings.Index(path, "/blobs/sha256:")+len("/blobs/sha256:"):]
